@@ -9,6 +9,7 @@ pub mod model;
 pub mod range;
 pub mod refs;
 pub mod rng;
+pub mod skew;
 pub mod store;
 pub mod worlds;
 
@@ -31,6 +32,7 @@ fn runs_for(prop: &str, thorough: bool) -> u64 {
         "C01" => (60_000, 1_500_000),
         "C02" => (60_000, 1_500_000),
         "C11" => (60_000, 1_500_000),
+        "C05" => (60_000, 1_500_000),
         "C13" => (60_000, 1_500_000),
         "C14" => (60_000, 1_500_000),
         "C16" => (100_000, 3_000_000),
